@@ -158,6 +158,40 @@ impl<T> Default for DenseVecStorage<T> {
     }
 }
 
+#[cfg(specs_verif)]
+impl<T> DenseVecStorage<T> {
+    /// Structural self-check (verification hook): given the indices the mask
+    /// says are present, the two redirection tables must be inverse to each
+    /// other and exactly as long as the population.
+    pub fn verif_check(&self, present: &[Index]) -> Result<(), String> {
+        if self.data.len() != present.len() || self.entity_id.len() != present.len() {
+            return Err(format!(
+                "lengths: data {} entity_id {} population {}",
+                self.data.len(),
+                self.entity_id.len(),
+                present.len()
+            ));
+        }
+        for &id in present {
+            let did = match self.data_id.get(id as usize) {
+                // SAFETY: `id` is in the mask, so this slot was written.
+                Some(d) => unsafe { d.assume_init() },
+                None => return Err(format!("data_id too short for index {}", id)),
+            };
+            match self.entity_id.get(did as usize) {
+                Some(&back) if back == id => {}
+                other => {
+                    return Err(format!(
+                        "entity_id[data_id[{}] = {}] = {:?}",
+                        id, did, other
+                    ))
+                }
+            }
+        }
+        Ok(())
+    }
+}
+
 impl<T> SliceAccess<T> for DenseVecStorage<T> {
     type Element = T;
 
